@@ -28,6 +28,7 @@ def run_seq_streams(run, a, pid, fail_pids, modes=('walk', 'boundary', 'pairs'),
     of this run; model diffs / bad traces are breakage."""
     cfgs = cfgs or seq_configs(run)
     total_ops = total_scripts = 0
+    jobs = []
     for profile, parity in cfgs:
         binpath = os.path.join(os.path.dirname(vlib.cargo_build(profile)), 'hseq')
         for mode in (['replay'] if a.replay else list(modes)):
@@ -37,7 +38,12 @@ def run_seq_streams(run, a, pid, fail_pids, modes=('walk', 'boundary', 'pairs'),
                 cmd = [binpath, 'seq', mode]
             else:
                 cmd = [binpath, 'seq']
-            out, hrc, jrc, herr = vlib.pipe(cmd, ['seq'], env={'VERIF_PARITY': parity})
+            jobs.append((profile, parity, mode, cmd))
+    from concurrent.futures import ThreadPoolExecutor
+    with ThreadPoolExecutor(max_workers=min(12, len(jobs) or 1)) as ex:
+        results = list(ex.map(lambda j: vlib.pipe(j[3], ['seq'], env={'VERIF_PARITY': j[1]}), jobs))
+    for (profile, parity, mode, cmd), (out, hrc, jrc, herr) in zip(jobs, results):
+        if True:
             died = hrc != 0
             if jrc != 0:
                 run.breakage(f'seq stream ({mode},{profile},{parity}) judge failed', f'judge rc={jrc}')
@@ -49,11 +55,16 @@ def run_seq_streams(run, a, pid, fail_pids, modes=('walk', 'boundary', 'pairs'),
                 if tags[0] == 'oracle-fail':
                     fp = tags[1] if len(tags) > 1 else '?'
                     replay = d.get('replay', '').replace('~', ' ').replace('|', '\n')
-                    if fp in fail_pids:
+                    if set(fp.split('+')) & set(fail_pids):
                         seen_fail = True
                         what = d.get('what', '')
                         key = f"op={d.get('op')}:{what.split('(')[0][:60]}"
                         run.fail(key, f"[{profile},{parity}] " + ln.split(' replay=')[0], f"# profile={profile} parity={parity}\n" + replay)
+                    else:
+                        # another M1 property fails on the implementation: the model (which satisfies all of them) no longer
+                        # describes this code, so this property is not shown to hold either
+                        run.breakage(f'correspondence (seq stream {mode},{profile},{parity}): implementation violates {fp}',
+                                     ln.split(' replay=')[0] + '\n' + replay)
                 elif tags[0] in ('model-diff', 'bad-trace'):
                     replay = d.get('replay', '').replace('~', ' ').replace('|', '\n')
                     run.breakage(f'correspondence (seq stream {mode},{profile},{parity}): {tags[0]}', ln.split(' replay=')[0] + '\n' + replay)
@@ -76,16 +87,34 @@ def run_seq_streams(run, a, pid, fail_pids, modes=('walk', 'boundary', 'pairs'),
     return total_ops
 
 
-def core_check(pid, props_mod, fail_pids, modes=('walk', 'boundary', 'pairs'), sample=None):
+def core_check(pid, props_mod, fail_pids, modes=('walk', 'boundary', 'pairs'), sample=None, extra_mods=()):
     def f(run, a):
         vlib.extract()
-        vlib.standard_lean_phase(run, props_mod)
+        vlib.standard_lean_phase(run, props_mod, None, ['BytesVerif.Lemmas.Core.Sound'] + list(extra_mods))
+        # the workhorse lemma behind every M1 property
+        ok, found, problems = vlib.audit_axioms(['BytesVerif.Lemmas.Core.Sound'], ['BytesVerif.Core.step_sound', 'BytesVerif.Core.WFx_init'], pid + '_sound')
+        for t in ('BytesVerif.Core.step_sound', 'BytesVerif.Core.WFx_init'):
+            bad = [p for p in problems if p.startswith(t + ':')]
+            run.obligation(t, not bad, '; '.join(bad))
+            run.axioms[t] = found.get(t)
+        if problems:
+            run.breakage('step_sound (Lemmas/Core/Sound.lean) no longer checks', '\n'.join(problems))
         run.trusted += CORE_TRUST
         run_seq_streams(run, a, pid, fail_pids, modes)
         if sample:
             run.samples += sample
         return run.finish()
     return f
+
+
+SAMPLE_SEQ = ['op mcap 16 ; op extend 0 0102030405060708090a ; op splitoff 0 8 ; op freeze 0 ; op tomut 0 -> ok h 0 ; h 0 M 17:0:16:0 8 8 - 0102030405060708',
+              'theorem step_sound (cfg e op s) (h : WFx s) (ho : OpOK op) : StepOKx cfg e op s']
+drv.CHECKS['C01'] = core_check('C01', 'BytesVerif.Props.C01', {'C01'}, sample=SAMPLE_SEQ)
+drv.CHECKS['C02'] = core_check('C02', 'BytesVerif.Props.C01', {'C02'}, sample=SAMPLE_SEQ)
+drv.CHECKS['C13'] = core_check('C13', 'BytesVerif.Props.C01', {'C13'}, sample=SAMPLE_SEQ)
+drv.CHECKS['C04'] = core_check('C04', 'BytesVerif.Props.C08', {'C04'}, sample=SAMPLE_SEQ)
+drv.CHECKS['C08'] = core_check('C08', 'BytesVerif.Props.C08', {'C08'}, sample=SAMPLE_SEQ)
+drv.CHECKS['C07'] = core_check('C07', 'BytesVerif.Props.C07', {'C07'}, sample=SAMPLE_SEQ)
 
 
 @drv.check('M1-probe')
